@@ -61,7 +61,8 @@ def pos_rebase(db, ctx):
     done = False
     for n, ps in walk(f.hir):
         if n.get("k") == "Assign" and peel(n["l"]).get("k") == "Field" and peel(n["l"]).get("name") == "pos_id":
-            from ..db import walk_x, deref_let
+            from ..db import walk_x, deref_all as deref_let_
+            deref_let = lambda e: deref_let_(e)
             txt = render(n["r"], x=True)
             sub_ok = add_ok = idx_ok = src_ok = False
             for x, _ in walk_x(n["r"]):
@@ -139,9 +140,20 @@ def builder(db, ctx):
             args = [render(a) for a in c["args"]]
     ctx.ob("new_user|conn-sizes-order", len(args) == 2 and "num_left" in args[0] and "num_right" in args[1], "set_max_conn_sizes(%s)" % args, fn=f)
     w = db.one("write_pos_table", "LexiconReader")
-    skip = any(n.get("k") == "If" and exit_kind(n["then"]) == "continue" and "start_pos" in render(n["cond"]) and cmp_atom(n["cond"]) and cmp_atom(n["cond"])[0] == "Lt"
-               for n, _ in walk(w.hir))
-    cnt = any(n.get("k") == "Let" and n["pat"].get("name") == "real_count" and "self.pos.len() - self.start_pos" in render(n["init"]) for n, _ in walk(w.hir))
+    # the row writer runs exactly for ids >= start_pos (unreachable at start_pos-1, reachable at start_pos), however the skip is written
+    from ..flow import holds_at
+    from ..guards import bound_cmp_evaluator
+    from ..inline import nf
+    isb = lambda x: isinstance(x, dict) and x.get("k") == "Field" and x.get("name") == "start_pos"
+    wr_calls = [c for c, _ in walk(w.hir) if c.get("k") == "MethodCall" and c.get("method") == "write" and "Utf16Writer" in (c.get("rty") or c.get("callee") or "")]
+    skip = bool(wr_calls)
+    for c in wr_calls:
+        pcs = path_conditions(c["id"], w.hir) or []
+        at_lo = holds_at(pcs, bound_cmp_evaluator(isb, -1))
+        at_eq = holds_at(pcs, bound_cmp_evaluator(isb, 0))
+        skip = skip and at_lo is False and at_eq is not False
+    cnt = any(c.get("k") == "MethodCall" and c.get("method") == "to_le_bytes" and nf(c["recv"]) == "(self.pos.len() - self.start_pos)" for c, _ in walk(w.hir)) or \
+        any(is_call(c) and (callee(c) or "").endswith("to_le_bytes") and call_args(c) and nf(call_args(c)[0]) == "(self.pos.len() - self.start_pos)" for c, _ in walk(w.hir))
     ctx.ob("write_pos_table|skip-preloaded", skip and cnt, "write_pos_table skips ids < start_pos (%s) and counts len - start_pos (%s)" % (skip, cnt), fn=w)
     pp = db.one("preload_pos", "LexiconReader")
     ok = any(n.get("k") == "Assign" and "start_pos" in render(n["l"]) and "pos.len()" in render(n["r"]) for n, _ in walk(pp.hir))
